@@ -69,7 +69,7 @@ def generate(rng, tier):
         ts = rand_ts(rng)
         out.append(Case(f'tc inject {tid.hex()} {sid.hex()} {f:02x} {hx(ts)}', H, ('inject', 'all-flags')))
         out.append(Case(f'tc roundtrip {tid.hex()} {sid.hex()} {f:02x} {hx(ts)}', H, ('roundtrip', 'all-flags')))
-    for _ in range(2000 if big else 300):
+    for _ in range(20000 if big else 300):
         tid = bytes(rng.choice([0, 0, 255, rng.randrange(256)]) if rng.random() < 0.3 else rng.randrange(256) for _ in range(16))
         sid = bytes(rng.choice([0, 0, 255, rng.randrange(256)]) if rng.random() < 0.3 else rng.randrange(256) for _ in range(8))
         r = rng.random()
@@ -81,7 +81,7 @@ def generate(rng, tier):
         op = rng.choice(['inject', 'roundtrip'])
         out.append(Case(f'tc {op} {tid.hex()} {sid.hex()} {rng.randrange(256):02x} {hx(ts)}', H, (op, 'random-ids')))
     # ---- extract: valid
-    for _ in range(3000 if big else 400):
+    for _ in range(30000 if big else 400):
         tp = valid_tp(rng, upper=rng.random() < 0.3)
         ts = rand_ts(rng)
         out.append(Case(f'tc extract {hx(tp)} {hx(ts)}', H, ('extract', 'valid')))
@@ -104,7 +104,7 @@ def generate(rng, tier):
             out.append(Case(f'tc extract {hx(alt + tp[2:])} -', H, ('extract', 'version-case')))
             out.append(Case(f'tc extract {hx(alt + tp[2:] + b"-00")} -', H, ('extract', 'version-case')))
     # ---- whitespace around
-    for _ in range(1500 if big else 300):
+    for _ in range(15000 if big else 300):
         tp = valid_tp(rng)
         pre = bytes(rng.choice(WS) for _ in range(rng.randrange(0, 4)))
         post = bytes(rng.choice(WS + b'\x00\xa0\x85') if rng.random() < 0.9 else rng.randrange(256) for _ in range(rng.randrange(0, 4)))
@@ -112,7 +112,7 @@ def generate(rng, tier):
     for w in (b'', b' ', b'   ', b'\t\n', b'\x00', b'\xa0', b' \x00 '):
         out.append(Case(f'tc extract {hx(w)} -', H, ('extract', 'blank')))
     # ---- structural mutations
-    for _ in range(20000 if big else 2500):
+    for _ in range(300000 if big else 2500):
         tp = bytearray(valid_tp(rng, version=rng.choice([b'00', b'00', b'01', b'cc', b'ff', b'fe'])))
         for _k in range(rng.randrange(1, 3)):
             r = rng.random()
